@@ -3,6 +3,7 @@ package rules
 import (
 	"fmt"
 	"go/token"
+	"go/types"
 	"sort"
 	"strings"
 
@@ -516,4 +517,169 @@ func runMatchPair(c *core.Ctx) {
 		}
 	}
 	c.Check(okCount, nil, fname(c, match), "all-tag-conditions", P.Pos(match.Pos()), "no match iff fewer tag names were found than there are #x conditions (every #x must hold)", detail+", want (-∞,#conditions)")
+}
+
+func init() {
+	reg(&core.RuleInfo{Name: "COMB-TAB", Props: []string{"C02"}, Engine: "CFG", Floor: 3, Confirmed: 4,
+		Doc: "a filter list matches when ANY member matches and is Done when ALL members are", Run: runCombTab})
+}
+
+// accumulatorTable folds the loop body of a combinator: for each old value
+// of the accumulator and each verdict of the member call, the new value.
+func accumulatorTable(fn *ssa.Function, member string) (init bool, table map[[2]bool]string, ok bool) {
+	table = map[[2]bool]string{}
+	var acc *ssa.Phi
+	var h *ssa.BasicBlock
+	for _, b := range fn.Blocks {
+		if len(an.Latches(b)) == 0 {
+			continue
+		}
+		for _, in := range b.Instrs {
+			if ph, isPhi := in.(*ssa.Phi); isPhi {
+				if bt, isB := ph.Type().Underlying().(*types.Basic); isB && bt.Kind() == types.Bool {
+					acc, h = ph, b
+				}
+			}
+		}
+	}
+	if acc == nil {
+		return false, nil, false
+	}
+	var call ssa.Value
+	for _, ci := range calls(fn) {
+		n := an.CalleeName(ci.Common())
+		if strings.HasSuffix(n, ")."+member) || strings.HasSuffix(n, "."+member) {
+			call, _ = ci.(ssa.Value)
+		}
+	}
+	if call == nil {
+		return false, nil, false
+	}
+	var next ssa.Value
+	for i, pb := range h.Preds {
+		if h.Dominates(pb) {
+			next = acc.Edges[i]
+		} else if k, isK := acc.Edges[i].(*ssa.Const); isK {
+			init = k.Value != nil && k.Value.String() == "true"
+		}
+	}
+	if next == nil {
+		return false, nil, false
+	}
+	for _, l := range an.Latches(h) {
+		paths, okp := an.SimplePaths(h, func(b *ssa.BasicBlock) bool { return b == l }, 256)
+		if !okp {
+			return false, nil, false
+		}
+		for _, old := range []bool{false, true} {
+			for _, mv := range []bool{false, true} {
+				fr := an.NoSubject()
+				fr.Assume = map[ssa.Value]bool{ssa.Value(acc): old, call: mv}
+				res := "?"
+				for _, p := range paths {
+					q := append(append(an.Path(nil), p...), h)
+					feasible := true
+					for _, cd := range q.Conds() {
+						t, f, known := fr.EvalBool(cd.V, q)
+						if known && ((cd.True && !t) || (!cd.True && !f)) {
+							feasible = false
+						}
+					}
+					if !feasible {
+						continue
+					}
+					t, f, known := fr.EvalBool(next, q)
+					switch {
+					case !known:
+						res = "?"
+					case t && !f:
+						res = "T"
+					case f && !t:
+						res = "F"
+					}
+				}
+				table[[2]bool{old, mv}] = res
+			}
+		}
+	}
+	return init, table, true
+}
+
+func runCombTab(c *core.Ctx) {
+	P := c.P
+	want := map[string]struct {
+		init bool
+		op   func(a, b bool) bool
+		txt  string
+	}{
+		"Match":      {false, func(a, b bool) bool { return a || b }, "any member matches"},
+		"LimitMatch": {false, func(a, b bool) bool { return a || b }, "any member matches"},
+		"Done":       {true, func(a, b bool) bool { return a && b }, "all members are done"},
+	}
+	for _, name := range []string{"Done", "LimitMatch", "Match"} {
+		var fn *ssa.Function
+		for _, f := range libFuncs(c) {
+			if strings.HasPrefix(f.Name(), name) && strings.Contains(f.String(), "EventLimitMatchers") && f.Parent() == nil && (f.Name() == name || strings.HasPrefix(f.Name(), name+"[")) {
+				fn = f
+			}
+		}
+		if fn == nil {
+			c.NoAnchor(nil, "EventLimitMatchers."+name)
+			continue
+		}
+		c.CountFuncs(1)
+		init, tab, ok := accumulatorTable(fn, name)
+		if !ok {
+			c.Unknown(nil, fname(c, fn), "truth-table", P.Pos(fn.Pos()), "accumulator loop not recognised")
+			continue
+		}
+		w := want[name]
+		good := init == w.init
+		var cells []string
+		for _, old := range []bool{false, true} {
+			for _, mv := range []bool{false, true} {
+				got := tab[[2]bool{old, mv}]
+				exp := map[bool]string{true: "T", false: "F"}[w.op(old, mv)]
+				// the member may legitimately not be consulted when the result is already fixed
+				cells = append(cells, fmt.Sprintf("(%v,%v)→%s", old, mv, got))
+				if got != exp {
+					good = false
+				}
+			}
+		}
+		// the accumulated value is what is returned
+		c.Check(good, nil, fname(c, fn), "truth-table", P.Pos(fn.Pos()), fmt.Sprintf("starts %v; (acc, member) ↦ %s: %s", init, strings.Join(cells, " "), w.txt),
+			fmt.Sprintf("combinator starts %v and maps (acc, member) ↦ %s; want start %v and '%s'", init, strings.Join(cells, " "), w.init, w.txt))
+	}
+	// one member per filter, in order
+	ctor := P.Root.Func("NewReqFiltersEventLimitMatcher")
+	if ctor == nil {
+		c.NoAnchor(nil, "NewReqFiltersEventLimitMatcher")
+		return
+	}
+	okCtor := false
+	an.Instrs(ctor, func(in ssa.Instruction) {
+		st, isSt := in.(*ssa.Store)
+		if !isSt {
+			return
+		}
+		ia, isIA := st.Addr.(*ssa.IndexAddr)
+		if !isIA {
+			return
+		}
+		call := an.CallOf(st.Val)
+		if call == nil || !strings.HasSuffix(an.CalleeName(&call.Call), "NewReqFilterMatcher") {
+			return
+		}
+		// ret[i] = NewReqFilterMatcher(filters[i]) with the same range counter
+		arg := call.Call.Args[0]
+		if u, isU := arg.(*ssa.UnOp); isU {
+			if ia2, isIA2 := u.X.(*ssa.IndexAddr); isIA2 && ia2.Index == ia.Index && an.PathOf(ia2.X) == "p:"+ctor.Params[0].Name() {
+				if ms, isMS := ia.X.(*ssa.MakeSlice); isMS && an.PathOf(ms.Len) == "len(p:"+ctor.Params[0].Name()+")" {
+					okCtor = true
+				}
+			}
+		}
+	})
+	c.Check(okCtor, nil, fname(c, ctor), "one-per-filter", P.Pos(ctor.Pos()), "member i is built from filter i, for every filter", "the list matcher is not built with exactly one member per filter (member i from filter i)")
 }
